@@ -172,6 +172,25 @@ pub fn run() -> i32 {
     }, |a| ts.merge(a));
     r.boxes.push(json!({"box": "feature spellings", "spellings": jobs.len() + 38, "comparisons": ts.evals, "by_kind": ts.per_kind.clone()}));
     r.guard(jobs.len() == 177 - 38, "177 spellings of 38 features in the frozen table");
+    // ---- every alpha letter in front of every spelling of every feature, node and suprasegmental, inverted and plain: a letter glued to an
+    // abbreviation may itself spell another name (`-O` + `long`), but an alpha letter is an alpha letter
+    let mut lj: Vec<(String, String)> = vec![]; // (kind, spelling)
+    for (_, v) in syn.as_object().unwrap() { for sp in v["spellings"].as_array().unwrap() { lj.push((v["kind"].as_str().unwrap().to_string(), sp.as_str().unwrap().to_string())); } }
+    let lwords: Vec<String> = ["ba.pa.za.sa", "ap.ta", "ab.da", "ˈta.ta", "taˈta", "pi.tu", "taː.ta", "ta.taː", "taːː.ta", "at.da"].iter().map(|s| s.to_string()).collect();
+    let mut tl = Acc::default();
+    par_fold(lj.len(), 1, Acc::default, |i, a| {
+        let (kind, sp) = &lj[i];
+        let templates: Vec<&str> = match kind.as_str() { "Feat" => vec!["[-XF] > [tone:7] / _ [XF]", "[XF, -son] > [-XF]"], "Node" => vec!["[-XF] > [tone:7] / _ [XF]"], _ => vec!["V:[-XF] > [tone:7] / _ C V:[XF]", "V > [-XF] / _ C V:[XF]"] };
+        for t in templates {
+            let mk = |l: char| t.replace("XF", &format!("{}{}", l, sp));
+            let base = vec![mk('α')];
+            let Some(x) = run_outcome(&base, &lwords, &[], &[]) else { continue };
+            for to in &letters { if *to == 'α' { continue; } cmp_with("alpha-letter-x-spelling", &x, &base, &[mk(*to)], &lwords, &lwords, (&[], &[]), (&[], &[]), a); }
+        }
+    }, |a| tl.merge(a));
+    r.boxes.push(json!({"box": "alpha letters x every spelling of every feature / node / suprasegmental (inverted and plain use)", "spellings": lj.len(), "letters": letters.len(), "comparisons": tl.evals, "equal_ok": tl.equal_ok, "equal_err": tl.equal_err}));
+    r.guard(tl.equal_ok > 10_000, "alpha letters x spellings: more than 10k equal Ok outcomes");
+    ts.merge(tl);
     // ---- word respellings
     let mut tw = Acc::default();
     let wrules: Vec<Vec<String>> = vec![vec![], vec!["a > e".into()], vec!["V:[+long] > [-long]".into(), "C > [+voice] / V_V".into()], vec!["% > [tone:5] / _#".into()], vec!["[+cons, -voice] > [+cont]".into()], vec!["n > ɲ / _i".into(), "t > t͡s / _a".into()]];
